@@ -226,3 +226,51 @@ reg_node("C01", "Theorems: election safety for every reachable state of the abst
          "(on_vote_request, start_election, on_vote_result, restart) are compared event by event with the real handlers; monitor: two nodes "
          "leader in one term on the simulated cluster.",
          ["static voter set in the abstract theorem; under membership changes safety additionally needs overlapping majorities (C08)"])
+
+
+# ------------------------------------------------------------------ C14
+
+def run_c14(pid, tier, seed):
+    wd = vlib.workdir(pid)
+    nseq, nops = (4, 24) if tier == "quick" else (60, 40)
+    rc, out = vlib.vh(["log", "crash", seed, nseq, nops, wd], timeout=3000)
+    if rc != 0:
+        return {"violations": [{"signature": "harness-died log crash", "detail": out[-1500:], "found": True,
+                                "replay": {"property": pid, "kind": "crash harness died", "output_tail": out[-3000:], "seed": seed}}]}
+    meta = json.load(open(os.path.join(wd, "crash_meta.json")))
+    viols, broken = eval_cases(wd, "cases_crash_*.v", meta, pid, "crash")
+    seen = {}
+    for f in meta.get("findings") or []:
+        prop, sig, detail = (f.split("|", 2) + ["", ""])[:3]
+        seen[sig] = seen.get(sig, 0) + 1
+        if seen[sig] <= 3:
+            viols.append({"signature": "crash-oracle " + sig, "detail": detail, "found": True,
+                          "replay": {"property": pid, "kind": "crash image violates the property on the real log package", "oracle": sig,
+                                     "what": detail, "seed": seed, "cmd": "vh log crash %s %s %s <dir>" % (seed, nseq, nops)}})
+    cov = {"evaluations": meta["images"], "distinct_nontrivial": meta["cases"],
+           "rule": "operation sequences on the real log package; at every verifPoint of every operation and at operation boundaries the "
+                   "directory is copied (process-kill image) and 4 power-loss images are built by mixing 4 KiB pages of the last flushed copy "
+                   "with the current one (none / only header page / all but header page / random subset); every image is reopened with the real "
+                   "Open and (a) judged by the property oracle (reopens, every entry was appended at that index, flushed entries survive) and "
+                   "(b) compared with the model's recovery at some non-decreasing crash point (kill) / some crash point and header choice (power "
+                   "loss), starting from the implementation's own disk state. evaluations = images reopened; distinct_nontrivial = operations "
+                   "with their crash points (LCrash cases)",
+           "samples": meta["samples"], "distribution": meta["dist"], "images_failing_open": meta["images_failing_open"],
+           "exhaustive_over": "all verifPoints of each executed operation (finite set per operation)"}
+    return {"violations": viols, "coverage": cov, "tie_broken": broken}
+
+
+register("C14", run=run_c14, tie="coq/SegLog/Cases.v (LCrash) vs log/segment.go sync/removeGTE, log/log.go, log/util.go createSegment/openSegments",
+         assumptions=["file creation, sizing and unlinking are atomic and durable when they return; msync(MS_SYNC) makes the whole mapping durable; "
+                      "pages reach the disk whole (4 KiB)", "no I/O errors"],
+         trusted=["crash-image construction in go/inlog/crash.go (directory copies at verifPoints, page mixing)", "boolean equalities of SegLog/Cases.v"],
+         level_text="Theorems (every operation sequence, every crash point between two file-system primitives of the next operation, process-kill "
+                    "and power-loss with any header-page choice and arbitrary junk beyond the stable data): reopening succeeds with a well-formed "
+                    "chain; every recovered entry was appended at that index; everything covered by a completed commit survives unless the "
+                    "interrupted operation removes it; at operation boundaries nothing removed comes back. The pre-repair recovery (0-byte "
+                    "segment file) is refuted with a witness.")
+
+reg_node("C05", "Theorems (every voter state, every request, every order of events, restarts at any point): a granted reply means term and vote "
+         "are the persisted ones; no step of any kind lowers the term or changes a cast vote within a term; along any history at most one "
+         "candidate per term and terms never decrease; reported terms lie between the terms before and after the step; the pre-repair handler is refuted.",
+         ["(term, votedFor) in the model IS the term file: crash atomicity of its rename is covered by C10's crash images"])
